@@ -326,7 +326,28 @@ def data_matrix(rng, shape, lim=1.5):
         x = rng.integers(-2, 3, size=shape) * 0.5
     elif u < 0.2:
         x = np.where(rng.random(shape) < 0.3, 0.0, x)
-    return np.asarray(x, dtype=float)
+    x = np.asarray(x, dtype=float)
+    if rng.random() < 0.2:
+        x = relayout_array(rng, x)
+    return x
+
+
+def relayout_array(rng, x):
+    """a data array in another memory layout: Fortran order (e.g. loaded from MATLAB / transposed), every second column of a
+    larger buffer, a read-only array (memory-mapped data), a float32 copy is NOT included (it would change the values)"""
+    x = np.asarray(x)
+    k = int(rng.integers(0, 4))
+    if k == 0:
+        return np.asfortranarray(x)
+    if k == 1 and x.ndim >= 1:
+        big = np.zeros(x.shape[:-1] + (2 * x.shape[-1],), dtype=x.dtype)
+        big[..., ::2] = x
+        return big[..., ::2]
+    if k == 2 and x.ndim == 2:
+        return np.ascontiguousarray(x.T).T  # transposed view of a C-ordered array
+    out = np.array(x, copy=True)
+    out.setflags(write=False)
+    return out
 
 
 def relayout(rng, c, readonly=True):
